@@ -7,6 +7,7 @@ import (
 	"io"
 	"math/rand"
 	"os"
+	"path/filepath"
 	"strings"
 	"syscall"
 	"time"
@@ -213,6 +214,8 @@ func (w *World) Do(c Call) error {
 			return err
 		}
 		return f.Close()
+	case "Archive":
+		return w.archiveBatch(c)
 	case "Remove":
 		return fs.Remove(p)
 	case "RemoveAll":
@@ -259,4 +262,47 @@ func Mutating(op string) bool {
 		return false
 	}
 	return true
+}
+
+// archiveBatch is Operations.Archive with len(c.Q) members below directory c.P, each a regular
+// file with the content of chunk c.C, archived from real files as `stfs operation archive` does.
+func (w *World) archiveBatch(c Call) error {
+	if w.Inst == nil || w.Inst.WriteOps == nil {
+		return errors.New("no write operations")
+	}
+	tmp, err := os.MkdirTemp(w.Inst.Dir, "batch-")
+	if err != nil {
+		return err
+	}
+	defer os.RemoveAll(tmp)
+	data := w.Chunk(c.C)
+	type member struct {
+		src, dst string
+		info os.FileInfo
+	}
+	var members []member
+	for i, name := range c.Q {
+		src := filepath.Join(tmp, fmt.Sprintf("m%d", i))
+		if err := os.WriteFile(src, data, filePerm); err != nil {
+			return err
+		}
+		if err := os.Chmod(src, filePerm); err != nil {
+			return err
+		}
+		info, err := os.Stat(src)
+		if err != nil {
+			return err
+		}
+		members = append(members, member{src: src, dst: w.Path(append(append([]string{}, c.P...), name)), info: info})
+	}
+	i := 0
+	_, err = w.Inst.WriteOps.Archive(func() (config.FileConfig, error) {
+		if i >= len(members) {
+			return config.FileConfig{}, io.EOF
+		}
+		m := members[i]
+		i++
+		return config.FileConfig{GetFile: func() (io.ReadSeekCloser, error) { return os.Open(m.src) }, Info: m.info, Path: m.dst, Link: ""}, nil
+	}, w.Inst.Cfg.Level, false, false)
+	return err
 }
